@@ -170,6 +170,66 @@ fn rebuilt_in_session_case(rng: &mut Rng, seed: u64) -> Case {
     }
 }
 
+/// Spread the flat scenario over a directory: some targets move to `sub/` and
+/// are built either by a specific rule there (the script runs in `sub/`) or by
+/// a `default.<ext>.do` rule of their own in the root (the script runs in the
+/// root, its target lies below it).  The names in the scripts' redo-ifchange
+/// calls are rewritten relative to the directory each script runs in.
+fn spread_over_directories(rng: &mut Rng, sc: &mut Scenario, meta: &mut BTreeMap<String, serde_json::Value>) {
+    // flat name -> (target path, rule path, directory the script runs in)
+    let mut place: BTreeMap<String, (String, String, String)> = BTreeMap::new();
+    for (p, _) in &sc.rules {
+        let name = p.trim_end_matches(".do").to_string();
+        let idx = name.trim_start_matches('n').to_string();
+        let pl = if name == "n0" {
+            (name.clone(), p.clone(), String::new())
+        } else {
+            match rng.below(4) {
+                0 => (name.clone(), p.clone(), String::new()),
+                1 => (format!("sub/{}", name), format!("sub/{}.do", name), "sub".to_string()),
+                _ => (
+                    format!("sub/{}.e{}", name, idx),
+                    format!("default.e{}.do", idx),
+                    String::new(),
+                ),
+            }
+        };
+        place.insert(name, pl);
+    }
+    let rel = |from_dir: &str, target: &str| -> String {
+        if from_dir.is_empty() {
+            target.to_string()
+        } else if let Some(r) = target.strip_prefix(&format!("{}/", from_dir)) {
+            r.to_string()
+        } else {
+            format!("../{}", target)
+        }
+    };
+    let mut rule_of = serde_json::Map::new();
+    let mut tags = serde_json::Map::new();
+    let old = std::mem::take(&mut sc.rules);
+    for (p, mut r) in old {
+        let name = p.trim_end_matches(".do").to_string();
+        let (tpath, rpath, dir) = place[&name].clone();
+        for st in r.stmts.iter_mut() {
+            if let Stmt::IfChange(v) | Stmt::Redo(v) = st {
+                for x in v.iter_mut() {
+                    if let Some((tp, _, _)) = place.get(x.as_str()) {
+                        *x = rel(&dir, tp);
+                    }
+                }
+            }
+        }
+        rule_of.insert(tpath.clone(), serde_json::json!(rpath));
+        tags.insert(tpath, serde_json::json!(name));
+        sc.rules.push((rpath, r));
+    }
+    sc.dirs.push("sub".into());
+    sc.family = "c18-dirs".into();
+    meta.insert("rule_of".into(), serde_json::Value::Object(rule_of));
+    meta.insert("tags".into(), serde_json::Value::Object(tags));
+}
+
 impl Property for C18 {
     fn id(&self) -> &'static str {
         "C18"
@@ -181,7 +241,8 @@ impl Property for C18 {
         }
     }
     fn rule(&self) -> &'static str {
-        "2-6 targets (nested and sibling) built by redo -j1..4 with log capture on and raw output; every \
+        "2-6 targets (nested and sibling; in every sixth scenario spread over a sub-directory, built by \
+         specific rules there or by default.<ext>.do rules of the directory above) built by redo -j1..4 with log capture on and raw output; every \
          script writes numbered stderr lines before, between and after its redo-ifchange calls: \
          partial lines completed later (also in 3-5 pieces with pauses of 15 ms-1.5 s between them), \
          lines of 5 kB and 70 kB, lines that resemble structured records \
@@ -294,6 +355,10 @@ impl Property for C18 {
             rules,
             ..Default::default()
         };
+        let mut meta = BTreeMap::new();
+        if index % 6 == 2 {
+            spread_over_directories(rng, &mut sc, &mut meta);
+        }
         let j = rng.range(1, 4);
         let mut c = Cmd::new(&["redo", &format!("-j{}", j), "--no-pretty", "n0"]);
         if rng.chance(1, 4) {
@@ -308,7 +373,7 @@ impl Property for C18 {
             scenario: sc,
             knobs: Knobs::draw(rng),
             opts: PlayOpts::default(),
-            meta: BTreeMap::new(),
+            meta,
         }
     }
     fn nontrivial(&self, _case: &Case, rec: &RunRecord) -> bool {
@@ -333,11 +398,36 @@ impl Property for C18 {
             });
             return v;
         }
-        let expected: BTreeMap<String, Vec<String>> = case
-            .scenario
-            .rules
+        // target -> rule path (scenarios spread over directories say so in meta)
+        let rule_of: BTreeMap<String, String> = match case.meta.get("rule_of").and_then(|m| m.as_object()) {
+            Some(m) => m
+                .iter()
+                .map(|(t, r)| (t.clone(), r.as_str().unwrap_or("").to_string()))
+                .collect(),
+            None => case
+                .scenario
+                .rules
+                .iter()
+                .map(|(p, _)| (p.trim_end_matches(".do").to_string(), p.clone()))
+                .collect(),
+        };
+        let tag_of = |t: &str| -> String {
+            case.meta
+                .get("tags")
+                .and_then(|m| m.get(t))
+                .and_then(|x| x.as_str())
+                .unwrap_or(t)
+                .to_string()
+        };
+        let expected: BTreeMap<String, Vec<String>> = rule_of
             .iter()
-            .map(|(p, r)| (p.trim_end_matches(".do").to_string(), script_lines(r)))
+            .filter_map(|(t, rp)| {
+                case.scenario
+                    .rules
+                    .iter()
+                    .find(|(p, _)| p == rp)
+                    .map(|(_, r)| (t.clone(), script_lines(r)))
+            })
             .collect();
         // redo-log shows the log of a target once per invocation, also when the
         // target is built k times in the session (a script that calls `redo x`
@@ -376,13 +466,13 @@ impl Property for C18 {
                 // streams of their own: each complete, once, in order; where they
                 // fall between the script's own lines is up to the scheduler
                 let is_bg = |x: &String| {
-                    x.strip_prefix(&format!("{} bg", t))
+                    x.strip_prefix(&format!("{} bg", tag_of(t)))
                         .map_or(false, |r| !r.is_empty() && r.chars().all(|c| c.is_ascii_digit()))
                 };
                 let got_bg: Vec<String> = all.iter().filter(|x| is_bg(x)).cloned().collect();
                 let got: Vec<String> = all.iter().filter(|x| !is_bg(x)).cloned().collect();
                 let mut want_bg: Vec<String> = Vec::new();
-                if let Some((_, rule)) = case.scenario.rules.iter().find(|(p, _)| p.trim_end_matches(".do") == t) {
+                if let Some((_, rule)) = case.scenario.rules.iter().find(|(p, _)| Some(p) == rule_of.get(t)) {
                     for st in &rule.stmts {
                         if let Stmt::ErrBg { n, tag } = st {
                             for i in 0..*n {
